@@ -376,12 +376,15 @@ impl If {
 
 impl ExecutableContent for If {
     fn execute(&self, datamodel: &mut dyn Datamodel, fsm: &Fsm) -> bool {
-        let r = datamodel
-            .execute_condition(&self.condition)
-            .unwrap_or_else(|e| {
+        let r = match datamodel.execute_condition(&self.condition) {
+            Ok(v) => v,
+            Err(e) => {
+                // W3C 5.9.1: treat the condition as false and place error.execution in the internal queue.
                 warn!("Condition {} can't be evaluated. {}", self.condition, e);
+                datamodel.internal_error_execution();
                 false
-            });
+            }
+        };
         if r {
             if self.content != 0 {
                 for e in fsm.executableContent.get(&self.content).unwrap() {
